@@ -91,6 +91,152 @@ func findRemovals(fn *ssa.Function) []removal {
 	return out
 }
 
+// filterRemoval describes the second removal idiom: the registry is rebuilt from a loop over itself,
+//   kept := empty; for _, s := range root.subscriptions { if drop(s) { s.sub.Unsubscribe() } else { kept = append(kept, s) } }
+//   root.subscriptions = kept
+// An element is removed exactly when it is not appended.
+type filterRemoval struct {
+	store   *ssa.Store
+	loop    *loopInfo
+	elem    ssa.Value
+	appends map[*ssa.BasicBlock]bool
+	unsubs  []*ssa.Call
+	why     string
+}
+
+func findFilterRemovals(c *Ctx, fn *ssa.Function) []filterRemoval {
+	var out []filterRemoval
+	loops := loopsOf(fn)
+	for _, b := range fn.Blocks {
+		for _, in := range b.Instrs {
+			st, ok := in.(*ssa.Store)
+			if !ok {
+				continue
+			}
+			fa, ok := st.Addr.(*ssa.FieldAddr)
+			if !ok {
+				continue
+			}
+			if o, f := fieldOwner(fa.X.Type(), fa.Field); o != "Root" || f != "subscriptions" {
+				continue
+			}
+			// the stored value is (a phi of) the kept list of some loop over the registry
+			for _, l := range loops {
+				var elem ssa.Value
+				for hb := range l.body {
+					for _, hin := range hb.Instrs {
+						switch t := hin.(type) {
+						case *ssa.Extract:
+							if nx, ok := t.Tuple.(*ssa.Next); ok && t.Index == 2 {
+								if rg, ok := nx.Iter.(*ssa.Range); ok && isSubsLoad(rg.X) {
+									elem = t
+								}
+							}
+						case *ssa.UnOp:
+							if ia, ok := t.X.(*ssa.IndexAddr); ok && t.Op == token.MUL && isSubsLoad(ia.X) && c.isNamed(t.Type(), "Subscription") {
+								if ind := loopInduction(l); ind.ok && ia.Index == ind.elem {
+									elem = t
+								}
+							}
+						}
+					}
+				}
+				if elem == nil {
+					continue
+				}
+				for _, hin := range l.head.Instrs {
+					kp, ok := hin.(*ssa.Phi)
+					if !ok {
+						break
+					}
+					if _, isSl := kp.Type().Underlying().(*types.Slice); !isSl {
+						continue
+					}
+					// the store's value must be this phi (possibly through the loop exit)
+					ls, _ := phiLeaves(st.Val)
+					flows := st.Val == ssa.Value(kp)
+					for _, lf := range ls {
+						if lf.val == ssa.Value(kp) {
+							flows = true
+						}
+					}
+					if !flows {
+						continue
+					}
+					fr := filterRemoval{store: st, loop: l, elem: elem, appends: map[*ssa.BasicBlock]bool{}}
+					okShape := true
+					var walk func(v ssa.Value, d int)
+					seen := map[ssa.Value]bool{}
+					walk = func(v ssa.Value, d int) {
+						if seen[v] || d > 8 {
+							return
+						}
+						seen[v] = true
+						switch t := v.(type) {
+						case *ssa.Phi:
+							if t == kp {
+								return
+							}
+							for _, e := range t.Edges {
+								walk(e, d+1)
+							}
+						case *ssa.Call:
+							if isBuiltinCall(t, "append") && len(t.Call.Args) == 2 {
+								if els, ok := sliceLitElems(t.Call.Args[1]); ok && len(els) == 1 && sameVal(els[0], elem) {
+									fr.appends[t.Block()] = true
+									walk(t.Call.Args[0], d+1)
+									return
+								}
+							}
+							okShape = false
+							fr.why = "the kept list is extended by something other than append(kept, current element)"
+						default:
+							okShape = false
+							fr.why = "the kept list has a source that is not an append of the current element"
+						}
+					}
+					for i, e := range kp.Edges {
+						if l.body[l.head.Preds[i]] {
+							walk(e, 0)
+						} else {
+							// initial value: empty
+							empty := false
+							switch t := e.(type) {
+							case *ssa.MakeSlice:
+								if k, ok := t.Len.(*ssa.Const); ok && k.Int64() == 0 {
+									empty = true
+								}
+							case *ssa.Slice:
+								if k, ok := t.High.(*ssa.Const); ok && t.High != nil && k.Int64() == 0 {
+									empty = true
+								}
+							case *ssa.Const:
+								empty = t.Value == nil
+							}
+							if !empty {
+								okShape = false
+								fr.why = "the kept list does not start empty"
+							}
+						}
+					}
+					if !okShape && fr.why == "" {
+						fr.why = "unrecognised shape"
+					}
+					for hb := range l.body {
+						for _, hin := range hb.Instrs {
+							if call, ok := hin.(*ssa.Call); ok && call.Call.IsInvoke() && call.Call.Method.Name() == "Unsubscribe" && c.isNamed(call.Call.Value.Type(), "Subscriber") {
+								fr.unsubs = append(fr.unsubs, call)
+							}
+						}
+					}
+					out = append(out, fr)
+				}
+			}
+		}
+	}
+	return out
+}
+
 // descendingLoop: l is `for i := len(x)-1; 0 <= i; i--` with induction phi i.
 func descendingLoop(l *loopInfo, idx ssa.Value) (bool, string) {
 	p, ok := idx.(*ssa.Phi)
@@ -255,7 +401,83 @@ func checkC19(c *Ctx, r *Report) {
 			}
 		}
 	}
-	r.floor("C19.DEL", "in-place removals from the registry", nRem, 2)
+	for _, fn := range []*ssa.Function{s.unsub, s.addEvent} {
+		for i, fr := range findFilterRemovals(c, fn) {
+			nRem++
+			key := fmt.Sprintf("%s: filter removal #%d", fnName(fn), i+1)
+			r.check("C19.DEL", key+" rebuilds the registry in order from an empty list", fr.store.Pos(), fr.why == "", fr.why+": the survivors must be the old elements in their old order")
+			// PAIR: on every path through an iteration exactly one of: append the element, clean it up
+			marks := map[*ssa.BasicBlock]bool{}
+			for b := range fr.appends {
+				marks[b] = true
+			}
+			right := true
+			for _, u := range fr.unsubs {
+				marks[u.Block()] = true
+				unsubSites[u] = true
+				if base, o, f, ok := loadOfField(u.Call.Value); !ok || o != "Subscription" || f != "sub" || !sameVal(base, fr.elem) {
+					right = false
+				}
+			}
+			none, two := false, false
+			var dfs func(b *ssa.BasicBlock, cnt int, seen map[*ssa.BasicBlock]bool)
+			dfs = func(b *ssa.BasicBlock, cnt int, seen map[*ssa.BasicBlock]bool) {
+				if !fr.loop.body[b] || seen[b] {
+					return
+				}
+				seen[b] = true
+				defer delete(seen, b)
+				if marks[b] {
+					cnt++
+				}
+				for _, sc := range b.Succs {
+					if sc == fr.loop.head {
+						if cnt == 0 {
+							none = true
+						}
+						if cnt > 1 {
+							two = true
+						}
+						continue
+					}
+					dfs(sc, cnt, seen)
+				}
+			}
+			for _, sc := range fr.loop.head.Succs {
+				if fr.loop.body[sc] && sc != fr.loop.head {
+					dfs(sc, 0, map[*ssa.BasicBlock]bool{})
+				}
+			}
+			r.check("C19.PAIR", key+": every element is either kept or cleaned up, exactly once", fr.store.Pos(), right && !none && !two && len(fr.unsubs) > 0,
+				fmt.Sprintf("clean-up on the loop's own element: %v; an iteration with neither append nor clean-up: %v; with both or two: %v", right, none, two))
+			if fn == s.addEvent {
+				idOK := len(fr.unsubs) > 0
+				for _, u := range fr.unsubs {
+					ok := hasGuard(u.Block(), func(g guard) bool {
+						if !g.val {
+							return false
+						}
+						switch t := g.cond.(type) {
+						case *ssa.Lookup:
+							return sameVal(t.Index, fr.elem) && c.isNamed(t.Index.Type(), "Subscription")
+						case *ssa.Extract:
+							if lk, ok := t.Tuple.(*ssa.Lookup); ok {
+								return sameVal(lk.Index, fr.elem)
+							}
+						case *ssa.BinOp:
+							return t.Op == token.EQL && (sameVal(t.X, fr.elem) || sameVal(t.Y, fr.elem))
+						}
+						return false
+					})
+					if !ok {
+						idOK = false
+					}
+				}
+				r.check("C19.IDENT", key+" removes by pointer identity with the failed subscriptions", fr.store.Pos(), idOK, "the clean-up must select the registry elements by identity (== or a set keyed by the subscription pointer)")
+			}
+		}
+	}
+	r.floor("C19.DEL", "removals from the registry (in place or by filtering)", nRem, 2)
 	// no other Unsubscribe call sites
 	for _, fn := range c.allFns {
 		for _, ci := range callsIn(fn) {
